@@ -59,7 +59,8 @@ def num_text(v):
     return s
 
 
-CRITERIA = ['mem', 'gc', 'compile', 'alloc rate', 'heap-size', 'x.y', 'Größe', 'c_1']
+CRITERIA = ['mem', 'gc', 'compile', 'alloc rate', 'heap-size', 'x.y', 'Größe', 'c_1', 'GC time', 'a  b c',
+            'p% used', '#objs', 'q"x\'y', 'L1 d-cache miss/s']
 UNITS = ['kb', 'ms', 'MB', 'n', 'bytes']
 
 
@@ -116,7 +117,7 @@ def gen_config(rng, opts=None):
             name = 'B%d%d' % (s, b)
             det = {}
             if rng.random() < 0.3:
-                det['extra_args'] = rng.choice(['x', '7', 'a b'])
+                det['extra_args'] = rng.choice(['x', '7', 'a b', 6, 2.5])
             if rng.random() < 0.2:
                 det['warmup'] = rng.randint(0, 3)
             if rng.random() < 0.2:
@@ -195,8 +196,11 @@ class Probe(object):
             ds = DataStore(ui)
             opt = rb_main.ReBench().shell_options().parse_args(['-D', conf] + list(argv_extra))
             exp_name, exp_filter = rb_main.ReBench.determine_exp_name_and_filters(opt.exp_filter)
-            c = Configurator(load_config(conf), ds, ui, opt, None, exp_name, opt.data_file, None, exp_filter,
-                             opt.machine)
+            try:
+                c = Configurator(load_config(conf), ds, ui, opt, None, exp_name, opt.data_file, None, exp_filter,
+                                 opt.machine)
+            except rb_main.UIError as e:      # the schema rejects the generated document: not a scenario
+                raise ValueError('configuration rejected: %s' % str(e.message)[:200])
             runs = c.get_runs()
             exps = c.get_experiments()
         finally:
@@ -271,7 +275,13 @@ def classify_start(probe, rec):
     if not m:
         return ['?', args]
     inv = int(m.group(1))
+    # The identity string of a run is its command line with the invocation placeholder left in.  A start
+    # is recognised by putting the number in place of the placeholder text -- no %-formatting here, so the
+    # mapping does not depend on how ReBench treats '%' in templates or substituted values (that is C03).
     for i, r in enumerate(probe.runs):
+        if r['cmd'].replace('%(invocation)s', str(inv)) == text:
+            return ['r', i, inv]
+    for i, r in enumerate(probe.runs):     # trees that format the identity string a second time
         try:
             if r['cmd'] % {'invocation': inv} == text:
                 return ['r', i, inv]
@@ -379,6 +389,19 @@ def run_real_session(wd, probe, argv, script, random_choice=None):
         return orig(self, runs, *a, **kw)
     rb_main.ReBench.execute_experiment = grab
     disk = []
+    reloaded = []
+    from rebench.model.run_id import RunId
+    orig_loaded = RunId.loaded_data_point
+
+    def spy_loaded(self, data_point, warmup):
+        try:
+            k = probe.run_index_of_cmd(self.cmdline())
+            for m in data_point.get_measurements():
+                reloaded.append((k, m.invocation, m.iteration, m.criterion, m.unit, m.value))
+        except Exception:  # noqa  (profile data has no measurements)
+            pass
+        return orig_loaded(self, data_point, warmup)
+    RunId.loaded_data_point = spy_loaded
 
     def snapshotting(rec):
         # what is on disk while this process "runs": everything persisted before must have been flushed
@@ -388,6 +411,7 @@ def run_real_session(wd, probe, argv, script, random_choice=None):
         res = drive.run_session(wd, [conf] + list(argv), snapshotting, random_choice=random_choice)
     finally:
         rb_main.ReBench.execute_experiment = orig
+        RunId.loaded_data_point = orig_loaded
         release_hanging()
     ob = Observed()
     ob.status = res.status()
@@ -402,6 +426,7 @@ def run_real_session(wd, probe, argv, script, random_choice=None):
     ob.stderr = res.stderr
     ob.files = [read_text(os.path.join(wd, f)) for f in probe.files]
     ob.disk_at_start = disk
+    ob.reloaded = reloaded
     return ob
 
 
